@@ -31,6 +31,7 @@ Step(e) ==
       [] e.op = "RoundTrip" -> RoundTrip(e.fmt)
       [] e.op = "Adopt"     -> Adopt
       [] e.op = "Rebuild"   -> Rebuild
+      [] e.op = "Rekey"     -> Rekey
       [] e.op = "Render"    -> Render(e.virtual, e.mask, e.via)
 TraceNext == l <= Len(Traces[tid].events) /\ Step(Ev) /\ l' = l + 1 /\ UNCHANGED <<tid, steps>>
 
